@@ -219,6 +219,32 @@ inline Diff diff_coupons(const std::vector<uint32_t>& got_sorted, const std::vec
   return d;
 }
 
+// ---------------------------------------------------------------- inputs whose coupons share the full 26-bit address
+// Birthday search over the reference hash (once per process): pairs of u64 keys with the same low 26 bits of h1 but
+// different coupon values.  In coupon (LIST/SET) mode both coupons are distinct members of the set; in HLL mode the
+// slot keeps the larger value.  Random streams practically never contain such a pair (2^-26 per pair of inputs).
+struct AddrPair { uint64_t x_hi, x_lo; uint32_t c_hi, c_lo; };   // c_hi has the larger value
+inline const std::vector<AddrPair>& same_address_pairs() {
+  static std::vector<AddrPair> pairs;
+  static bool built = false;
+  if (!built) {
+    built = true;
+    std::unordered_map<uint32_t, std::pair<uint64_t, uint32_t>> seen;   // address -> (key, coupon)
+    seen.reserve(1u << 17);
+    for (uint64_t i = 0; i < 98304 && pairs.size() < 24; ++i) {
+      const uint64_t x = i * 0x9e3779b97f4a7c15ULL + 777;
+      const uint32_t c = coupon_of_hash(ref_hash_u64(x, HLL_HASH_SEED));
+      auto ins = seen.emplace(c & ADDR26_MASK, std::make_pair(x, c));
+      if (ins.second) continue;
+      const uint32_t c0 = ins.first->second.second;
+      if (c0 == c) continue;                                          // same value too: an ordinary duplicate coupon
+      if (cp_value(c) > cp_value(c0)) pairs.push_back(AddrPair{x, ins.first->second.first, c, c0});
+      else pairs.push_back(AddrPair{ins.first->second.first, x, c0, c});
+    }
+  }
+  return pairs;
+}
+
 inline bool rel_eq(double a, double b, double tol) {
   if (a == b) return true;
   if (std::isnan(a) || std::isnan(b)) return false;
